@@ -177,6 +177,7 @@ func TestVerifC10(t *testing.T) {
 			for nack := 0; nack <= m/IKCP_OVERHEAD+3; nack++ {
 				for flags := uint32(0); flags < 4; flags++ {
 					for _, segs := range [][]int{nil, {1}, {mss}, {mss, 1}, {1, mss, mss / 2}, {mss / 2, mss/2 + 1, mss}} {
+					  for stale := 0; stale < 4; stale++ {
 						var k *KCP
 						bad := ""
 						k = NewKCP(9, func(buf []byte, size int) {
@@ -188,9 +189,18 @@ func TestVerifC10(t *testing.T) {
 							return
 						}
 						k.NoDelay(1, 10, 0, 1)
+						// a hole at rcv_nxt: acknowledgements behind it are not filtered out,
+						// acknowledgements of late duplicates (sn < rcv_nxt) are — except the
+						// newest entry, which is always written. stale: 0 none, 1 the newest
+						// entry, 2 every third and the newest, 3 every third but not the newest
+						k.rcv_nxt = 1000
 						for i := 0; i < nack; i++ {
-							// out-of-order numbers so that no ACK is filtered out
-							k.acklist = append(k.acklist, ackItem{sn: uint32(1 + i), ts: rng.u32()})
+							sn := uint32(1001 + i)
+							last := i == nack-1
+							if (stale == 1 && last) || (stale == 2 && (last || i%3 == 0)) || (stale == 3 && !last && i%3 == 0) {
+								sn = uint32(10 + i)
+							}
+							k.acklist = append(k.acklist, ackItem{sn: sn, ts: rng.u32()})
 						}
 						k.probe = flags
 						for _, sz := range segs {
@@ -201,12 +211,13 @@ func TestVerifC10(t *testing.T) {
 						k.flush(IKCP_FLUSH_FULL)
 						flushes++
 						if bad != "" {
-							rec.violationf(desc, "C10 core handed its output callback an empty or over-MTU packet", "%s with %d pending ACKs, probe flags %d, new segments %v", bad, nack, flags, segs)
+							rec.violationf(desc, "C10 core handed its output callback an empty or over-MTU packet", "%s with %d pending ACKs (stale pattern %d), probe flags %d, new segments %v", bad, nack, stale, flags, segs)
 							return
 						}
 						for seg := range k.snd_buf.ForEach {
 							k.recycleSegment(seg)
 						}
+					  }
 					}
 				}
 			}
